@@ -11,10 +11,13 @@
 size_t vc_k, vc_j, vc_memcmp_idx, vc_cstr_max, vc_strlen_result, vc_memcmp_n;
 int vc_memcmp_result; const void *vc_memcmp_a, *vc_memcmp_b;
 
+uint8_t vc_wit[VC_N];      /* copy of the input bytes, so that a counterexample trace shows them */
+
 void h_verify_ref(void)
 {
     uint8_t *buf = malloc(VC_N);
     __CPROVER_assume(buf != NULL);
+    for (size_t i = 0; i < VC_N; i++) { vc_wit[i] = buf[i]; }
     binson_parser p;                       /* struct contents unconstrained: "arbitrary prior contents" */
     binson_state *st = malloc(VC_MD * sizeof(binson_state));
     __CPROVER_assume(st != NULL);
